@@ -85,7 +85,9 @@ def knowledge_assignments(st, tier, ndev=0):
         if st.get("collist") and n is not None and n != len(st["collist"]):
             continue
         out.append((tags + "-tU", K))
-        if tgt and st["kind"] == "insert" and n is not None:
+        if tgt and st["kind"] in ("insert", "ctas", "view") and n is not None:
+            # known target: names the positions of an INSERT without column list - and of nothing else (CTAS / CREATE VIEW
+            # define their own columns)
             Kt = dict(K)
             Kt[tgt] = [f"m{i}" for i in range(n)]
             out.append((tags + "-tK", Kt))
@@ -154,11 +156,93 @@ def _eval(task):
     }
 
 
+# ------------------------------------------------------------------------------------------------
+# (iv) two multi-relation scopes in one statement: knowledge about one scope's tables must not leak into the other
+# ------------------------------------------------------------------------------------------------
+def two_scope_cases():
+    T = sqlgen.T
+    base = lambda n: {"k": "base", "t": T(n, None), "alias": None, "as": False}  # noqa: E731
+    sel = lambda items, rels: {"items": items, "from": {"shape": "join", "rels": rels}, "where": None, "tail": None}  # noqa: E731
+    q1 = lambda *ss: {"ctes": [], "branches": list(ss), "ops": ["UNION ALL"] * (len(ss) - 1)}  # noqa: E731
+    col = lambda n, a=None: {"e": ["col", None, n], "alias": a}  # noqa: E731
+    out = []
+    for second in (("t3", "t4"), ("t1", "t3")):
+        for ca in ("c1", "c2"):
+            for cb in ("c1", "c2"):
+                inner = sel([col(cb)], [base(second[0]), base(second[1])])
+                outer_rels = [base("t1"), base("t2")]
+                shapes = {
+                    "union": q1(sel([col(ca)], outer_rels), inner),
+                    "scalar": q1(sel([col(ca), {"e": ["subq", q1(inner)], "alias": "x1"}], outer_rels)),
+                    "exists": q1({**sel([col(ca)], outer_rels), "where": ["exists", q1(inner)]}),
+                    "cte": {"ctes": [{"name": "cte1", "q": q1(inner)}], "ops": ["UNION ALL"],
+                            "branches": [sel([col(ca)], outer_rels), {"items": [col(cb)], "from": {"shape": "one", "rels": [{"k": "cte", "name": "cte1", "alias": None}]}, "where": None, "tail": None}]},
+                }
+                for name, q in shapes.items():
+                    st = {"kind": "insert", "target": T("tgt"), "collist": None, "q": q}
+                    out.append((f"{name}/{'+'.join(second)}/{ca},{cb}", st))
+    return out
+
+
+def two_scope_knowledge(st):
+    bases = sorted({refsem.fq(t, SCHEMA) for t in sqlgen.base_tables(st)})
+    opts = [None, ["c1", "id"], ["c2", "id"], ["zz"]]
+    for combo in itertools.product(opts, repeat=len(bases)):
+        K = {b: c for b, c in zip(bases, combo) if c is not None}
+        if not K:
+            continue
+        # well-formed: every ambiguous column has a candidate that is unknown or lists it
+        ok = True
+        for src, _ in refsem.columns(st, {}, SCHEMA):
+            if src.startswith("?"):
+                name, cands = src[1:].split("[")
+                cs = [c for c in cands.rstrip("]").split("|") if "." in c]
+                if cs and all(c in K and name not in K[c] for c in cs):
+                    ok = False
+        if ok:
+            yield "".join("U" if c is None else c[0][-1] if c[0] != "zz" else "L" for c in combo), K
+
+
+# ------------------------------------------------------------------------------------------------
+# (v) one provider object over a history of runs: every run answers as with a fresh provider
+# ------------------------------------------------------------------------------------------------
+RUNS = [
+    "CREATE TABLE main.x AS SELECT c1, c2 FROM main.t1;\nINSERT INTO main.tgt SELECT * FROM main.x",
+    "INSERT INTO main.tgt SELECT * FROM main.x",
+    "INSERT INTO main.tgt SELECT c1 FROM main.x JOIN main.t2 ON 1 = 1",
+    "INSERT INTO main.t1 SELECT c9 FROM main.t2;\nINSERT INTO main.tgt SELECT * FROM main.t1",
+    "INSERT INTO main.tgt SELECT * FROM main.t1",
+    "CREATE VIEW main.t2 AS SELECT c1 AS v1 FROM main.t1;\nINSERT INTO main.tgt SELECT v1, c2 FROM main.t2 JOIN main.x ON 1 = 1",
+    "INSERT INTO main.tgt SELECT c2 FROM main.t2 JOIN main.x ON 1 = 1",
+]
+RUN_KNOWLEDGE = [
+    {"main.t1": ["c1", "c2", "id"]},
+    {"main.t1": ["c1", "c2", "id"], "main.t2": ["c2", "id"]},
+    {"main.x": ["k1", "k2"], "main.t2": ["c1", "id"]},
+    {"main.unrelated": ["id"]},
+]
+
+
+def _history(task):
+    kind, K, hist = task
+    prov = make_provider(kind, K)
+    bad = []
+    for i, r in enumerate(hist):
+        got = observe.observe(RUNS[r], "ansi", provider=prov, level="columns")
+        want = observe.observe(RUNS[r], "ansi", provider=make_provider(kind, K), level="columns")
+        if got != want:
+            bad.append({"step": i, "run": RUNS[r], "reused_provider": got, "fresh_provider": want})
+            break
+    return {"ok": not bad, "bad": bad}
+
+
 def classify(st, tags, K, res):
     if res["bad"] != "columns":
         return None
     d = res["delta"]
     tgt = refsem.fq(st["target"], SCHEMA) if st.get("target") else None
+    if tags.startswith("2s:") and len(set(tags.split(":")[1].split("/")[2].split(","))) == 1:
+        return "F-C04-unresolved-columns-of-equal-name-merge"  # both scopes read an unqualified column of the same name
     if not res["base_ok"]:
         fid = classify_c02(st, "ansi", {"bad": "columns", "delta": d, "obs": res["obs"]})
         return fid or "F-C13-inherits-single-statement-finding"
@@ -195,6 +279,13 @@ def run(tier: str, opts: dict) -> int:
             kinds = ["dummy", "sqlalchemy"] if (ndev <= (1 if tier == "quick" else 2)) else ["dummy"]
             for kind in kinds:
                 tasks.append((st, tags, K, kind, ndev <= 1 or tier != "quick"))
+    # (iv) two-scope statements x knowledge product, both provider kinds
+    n_two = 0
+    for label, st in two_scope_cases():
+        for tags, K in two_scope_knowledge(st):
+            for kind in (["dummy", "sqlalchemy"] if tier != "quick" else ["dummy"]):
+                tasks.append((st, "2s:" + label + ":" + tags, K, kind, False))
+                n_two += 1
     res = pmap(_eval, tasks, chunk=8)
     regen = opts.get("regen_pins")
     new_pins, unclassified = {}, []
@@ -223,6 +314,12 @@ def run(tier: str, opts: dict) -> int:
                           {k: r[k] for k in ("obs", "expected", "delta") if k in r})
     if regen:
         return _write_pins("C13", new_pins, unclassified, replace=(tier == "thorough"))
+    # (v) provider reuse: every history of up to L runs on one provider object
+    L = 2 if tier == "quick" else 3
+    htasks = [(kind, K, h) for kind in ("dummy", "sqlalchemy") for K in RUN_KNOWLEDGE for n in range(2, L + 1) for h in itertools.product(range(len(RUNS)), repeat=n)]
+    for t, r in zip(htasks, pmap(_history, htasks, chunk=8)):
+        if not r["ok"]:
+            rep.violation("reused-provider-answers-differently", {"provider": t[0], "knowledge": t[1], "history": [RUNS[i] for i in t[2]], "history_index": list(t[2])}, r["bad"][0])
     for t in tasks[:: max(1, len(tasks) // 5)][:5]:
         rep.sample({"sql": sqlgen.render(t[0], sqlgen.R(qualify=SCHEMA)), "knowledge": t[2], "assignment": t[1], "provider": t[3]})
     rep.coverage.update(
@@ -230,11 +327,16 @@ def run(tier: str, opts: dict) -> int:
         distinct_nontrivial=len(nontrivial),
         rule=f"C02-generator statements with <= {D} deviations, all tables in schema '{SCHEMA}', x full product of per-table knowledge "
         "{U unknown, E exact, S superset, O overlapping names, L lacking the ambiguous column} filtered for well-formed SQL x target "
-        "{unknown, known by position, known superset of the column list} x provider kind; non-trivial = >= 2 known tables or an O/L assignment",
+        "{unknown, known by position (INSERT, CTAS, CREATE VIEW), known superset of the column list} x provider kind; (iv) statements with two join scopes "
+        "(union branch, scalar subquery, EXISTS subquery, CTE; disjoint or overlapping tables; every choice of the two unqualified columns) x every assignment of "
+        "{unknown, has c1, has c2, has neither} to their tables; (v) every history of up to "
+        f"{L} runs from a menu of {len(RUNS)} scripts on ONE provider object x {len(RUN_KNOWLEDGE)} knowledge maps x both provider kinds, each run compared with a fresh provider; non-trivial = >= 2 known tables or an O/L assignment",
         exhaustive=True,
         bound_completed={"deviations": D},
         by_provider_kind=by_kind,
         statements=len(cases),
+        two_scope_evaluations=n_two,
+        provider_reuse_histories=len(htasks),
     )
     rep.assumptions += [
         "reference semantics refsem.columns parameterised by the knowledge map; well-formedness rules of DESIGN.md C13",
@@ -245,6 +347,14 @@ def run(tier: str, opts: dict) -> int:
 
 def replay(body: dict, opts: dict) -> int:
     c = body["case"]
+    if "history_index" in c:
+        r = _history((c["provider"], c["knowledge"], c["history_index"]))
+        print(json.dumps(r, indent=1, default=str)[:3000])
+        if r["ok"]:
+            print("OK on replay")
+            return 0
+        print(f"VIOLATION property=C13 replay={opts.get('path', '<replayed>')}")
+        return 1
     r = _eval((c["ast"], c["assignment"], c["knowledge"], c["provider"]))
     print(json.dumps(r, indent=1, default=str)[:3000])
     if r.get("ok"):
